@@ -9,7 +9,39 @@ use taskchampion::server::verif::{arm_failpoint, set_randint, take_failpoint_tra
 use taskchampion::server::{AddVersionResult, GetVersionResult, Server, ServerConfig};
 use taskchampion::Uuid;
 
+/// runs the calls of a reqwest-based server inside a tokio runtime (the rest of the harness
+/// polls futures by hand)
+pub struct TokioServer {
+    rt: std::sync::Arc<tokio::runtime::Runtime>,
+    inner: Box<dyn Server>,
+}
+
+#[async_trait::async_trait(?Send)]
+impl Server for TokioServer {
+    async fn add_version(&mut self, parent: taskchampion::server::VersionId, hs: taskchampion::server::HistorySegment)
+        -> Result<(AddVersionResult, taskchampion::server::SnapshotUrgency), taskchampion::Error> {
+        let rt = self.rt.clone();
+        rt.block_on(self.inner.add_version(parent, hs))
+    }
+    async fn get_child_version(&mut self, parent: taskchampion::server::VersionId) -> Result<GetVersionResult, taskchampion::Error> {
+        let rt = self.rt.clone();
+        rt.block_on(self.inner.get_child_version(parent))
+    }
+    async fn add_snapshot(&mut self, v: taskchampion::server::VersionId, s: taskchampion::server::Snapshot) -> Result<(), taskchampion::Error> {
+        let rt = self.rt.clone();
+        rt.block_on(self.inner.add_snapshot(v, s))
+    }
+    async fn get_snapshot(&mut self) -> Result<Option<(taskchampion::server::VersionId, taskchampion::server::Snapshot)>, taskchampion::Error> {
+        let rt = self.rt.clone();
+        rt.block_on(self.inner.get_snapshot())
+    }
+}
+
+pub const HTTP_CLIENT: u128 = 0xea82d570_3d7e_494a_a581_babe65dc7b3b;
+
 pub struct Backend {
+    pub http: Option<crate::httpsrv::HttpSrv>,
+    pub rt: Option<std::sync::Arc<tokio::runtime::Runtime>>,
     pub kind: String,
     pub dir: PathBuf,
     pub store: Option<MemStore>,
@@ -39,13 +71,25 @@ impl Backend {
                 let c = block_on(VerifCloud::new(self.store.clone().unwrap(), i, B_SECRET.to_vec()))?;
                 Ok(Box::new(c))
             }
+            "http" => {
+                // every handle is the same client (one task history), as the documentation prescribes
+                let rt = self.rt.clone().unwrap();
+                let inner = rt.block_on(ServerConfig::Remote {
+                    url: self.http.as_ref().unwrap().url(), client_id: Uuid::from_u128(HTTP_CLIENT),
+                    encryption_secret: B_SECRET.to_vec() }.into_server())?;
+                Ok(Box::new(TokioServer { rt, inner }))
+            }
             other => panic!("unknown backend {other}"),
         }
     }
 
     pub fn new(kind: &str, nhandles: usize, tag: &str) -> Backend {
         let dir = work_dir(tag);
-        let mut b = Backend { kind: kind.to_string(), dir, store: None, handles: vec![], nhandles };
+        let mut b = Backend { http: None, rt: None, kind: kind.to_string(), dir, store: None, handles: vec![], nhandles };
+        if kind == "http" {
+            b.http = Some(crate::httpsrv::HttpSrv::start());
+            b.rt = Some(std::sync::Arc::new(tokio::runtime::Builder::new_current_thread().enable_all().build().expect("tokio runtime")));
+        }
         if kind == "cloud" {
             b.store = Some(MemStore::new(nhandles + 2, 2));
             set_randint(Some(255));
@@ -142,13 +186,40 @@ pub fn gen_backend(seed: u64, id: usize, kind: &str, faults: bool, big: bool) ->
                     arm_failpoint(Some((nme, 0)));
                     fp_name = Some(nme.to_string());
                 }
+                if kind == "http" {
+                    use crate::httpsrv::Hostile;
+                    let modes = [Hostile::Status500, Hostile::NoVersionHeader, Hostile::BadVersionHeader, Hostile::ConflictNoHeader];
+                    let m = modes[rng.below(modes.len())].clone();
+                    fp_name = Some(format!("http: the server answers add-version with {:?}", m));
+                    be.http.as_ref().unwrap().state.lock().unwrap().hostile = Some(m);
+                }
+            }
+            // the snapshot request the HTTP server will attach to an acceptance
+            if kind == "http" {
+                be.http.as_ref().unwrap().state.lock().unwrap().urgency = None;
+            }
+            let mut want_urgency = None;
+            if kind == "http" && rng.chance(50) {
+                let (h, u) = match rng.below(3) {
+                    0 => ("urgency=low", taskchampion::server::SnapshotUrgency::Low),
+                    1 => ("urgency=high", taskchampion::server::SnapshotUrgency::High),
+                    _ => ("urgency=whatever", taskchampion::server::SnapshotUrgency::None),
+                };
+                be.http.as_ref().unwrap().state.lock().unwrap().urgency = Some(h.to_string());
+                want_urgency = Some(u);
             }
             let r = std::panic::catch_unwind(std::panic::AssertUnwindSafe(|| block_on(be.handles[h].add_version(puuid, bytes.clone()))));
             arm_failpoint(None);
             let _ = take_failpoint_trace();
             match r {
                 Err(_) => problems.push(format!("{kind}: add_version panicked")),
-                Ok(Ok((AddVersionResult::Ok(v), _))) => {
+                Ok(Ok((AddVersionResult::Ok(v), urg))) => {
+                    if kind == "http" {
+                        let want = want_urgency.clone().unwrap_or(taskchampion::server::SnapshotUrgency::None);
+                        if urg != want {
+                            problems.push(format!("http: the server's snapshot request {:?} was reported as {:?}", want, urg));
+                        }
+                    }
                     let cid = ids.len();
                     ids.push(v);
                     canon.insert(v, cid);
@@ -256,6 +327,82 @@ pub fn gen_backend(seed: u64, id: usize, kind: &str, faults: bool, big: bool) ->
             }
         }
         feat("calls", &mut feats);
+    }
+    if kind == "http" {
+        use crate::httpsrv::Hostile;
+        let srv = be.http.as_ref().unwrap().state.clone();
+        srv.lock().unwrap().hostile = None;
+        // responses no conforming server gives: each must come back as an error, never as data
+        if !chain.is_empty() {
+            let first_parent = {
+                let st = srv.lock().unwrap();
+                st.chains.values().next().and_then(|c| c.versions.first().map(|v| v.1)).unwrap_or(Uuid::nil())
+            };
+            let modes = [Hostile::Status500, Hostile::NoVersionHeader, Hostile::BadVersionHeader, Hostile::NoParentHeader,
+                         Hostile::WrongContentType, Hostile::CorruptBody, Hostile::TruncatedBody, Hostile::Gone];
+            for m in modes.iter() {
+                if !rng.chance(60) {
+                    continue;
+                }
+                srv.lock().unwrap().hostile = Some(m.clone());
+                feat("hostile_responses", &mut feats);
+                match std::panic::catch_unwind(std::panic::AssertUnwindSafe(|| block_on(be.handles[0].get_child_version(first_parent)))) {
+                    Err(_) => problems.push(format!("http: get_child_version panicked on a {:?} response", m)),
+                    Ok(Ok(r)) => problems.push(format!("http: get_child_version accepted a {:?} response: {:?}", m, matches!(r, GetVersionResult::Version { .. }))),
+                    Ok(Err(_)) => {}
+                }
+                script.push(json!(format!("handle 0: get_child_version(first parent) answered with {:?} -> must be an error", m)));
+            }
+            let has_snap = srv.lock().unwrap().chains.values().any(|c| c.snapshot.is_some());
+            if has_snap {
+                for m in [Hostile::NoVersionHeader, Hostile::WrongContentType, Hostile::CorruptBody, Hostile::TruncatedBody].iter() {
+                    srv.lock().unwrap().hostile = Some(m.clone());
+                    feat("hostile_responses", &mut feats);
+                    match std::panic::catch_unwind(std::panic::AssertUnwindSafe(|| block_on(be.handles[0].get_snapshot()))) {
+                        Err(_) => problems.push(format!("http: get_snapshot panicked on a {:?} response", m)),
+                        Ok(Ok(_)) => problems.push(format!("http: get_snapshot accepted a {:?} response", m)),
+                        Ok(Err(_)) => {}
+                    }
+                }
+            }
+            srv.lock().unwrap().hostile = None;
+            // and afterwards the client still works
+            match std::panic::catch_unwind(std::panic::AssertUnwindSafe(|| block_on(be.handles[0].get_child_version(first_parent)))) {
+                Ok(Ok(GetVersionResult::Version { version_id, history_segment, .. })) => {
+                    let cid = canon.get(&version_id).copied().unwrap_or(9999);
+                    let pl = payload_of(&history_segment).unwrap_or(9999);
+                    let pc = canon.get(&first_parent).copied().unwrap_or(9998);
+                    items.push(pair(ctor("BGetChild", vec![n_(pc)]), ctor("BVersion", vec![n_(cid), n_(pl)])));
+                }
+                other => problems.push(format!("http: after hostile responses get_child_version gave {:?}", other.map(|r| r.map(|_| "something else")).map_err(|_| "panic"))),
+            }
+        }
+        // what the server received: the documented request shape, sealed under the parent id
+        let st = srv.lock().unwrap();
+        problems.extend(st.problems.iter().map(|p| format!("http request shape: {p}")));
+        let cid = Uuid::from_u128(HTTP_CLIENT);
+        for r in st.received.iter() {
+            if r.client_id.as_deref() != Some(&cid.to_string()) {
+                problems.push(format!("http: {} {} carried X-Client-Id {:?}", r.method, r.path, r.client_id));
+            }
+            let seg: Vec<&str> = r.path.trim_start_matches('/').split('/').collect();
+            if r.method == "POST" && seg.len() == 5 {
+                if let Ok(id) = Uuid::parse_str(seg[4]) {
+                    feat("bodies_unsealed", &mut feats);
+                    if r.body.first() != Some(&1) || r.body.windows(8).any(|w| w == b"payload-") {
+                        problems.push(format!("http: the body sent to {} is not in the sealed form", r.path));
+                    }
+                    match taskchampion::server::verif::unseal(B_SECRET, cid.as_bytes(), id, r.body.clone()) {
+                        Ok(plain) => {
+                            if payload_of(&plain).map(|k| payload(k, big) == plain || payload(k, false) == plain) != Some(true) {
+                                problems.push(format!("http: the body sent to {} opens to something that was not submitted", r.path));
+                            }
+                        }
+                        Err(e) => problems.push(format!("http: the body sent to {} does not open under (secret, client id as salt, the id in the url): {e:#}", r.path)),
+                    }
+                }
+            }
+        }
     }
     // stored bytes of the remote backends are sealed: format byte 1 and no payload marker
     if kind.starts_with("git") {
